@@ -78,6 +78,13 @@ def run(run):
             chans.append(("AWGNChannel", "power", cplx, P, lambda P=P: AWGNChannel(avg_noise_power=P), "gaussian", None))
             chans.append(("LaplacianChannel", "power", cplx, P, lambda P=P: LaplacianChannel(avg_noise_power=P), "laplacian", None))
             chans.append(("NonlinearChannel", "power", cplx, P, lambda P=P: NonlinearChannel(torch.tanh, add_noise=True, avg_noise_power=P, complex_mode="cartesian"), "gaussian", "tanh"))
+        # the same parameters given as Python int and as tensor
+        chans.append(("AWGNChannel", "power", cplx, 2, lambda: AWGNChannel(avg_noise_power=2), "gaussian", None))
+        chans.append(("AWGNChannel", "power", cplx, 0.25, lambda: AWGNChannel(avg_noise_power=torch.tensor(0.25)), "gaussian", None))
+        chans.append(("LaplacianChannel", "power", cplx, 3, lambda: LaplacianChannel(avg_noise_power=3), "laplacian", None))
+        chans.append(("LaplacianChannel", "scale", cplx, 1, lambda: LaplacianChannel(scale=1), "laplacian", None))
+        chans.append(("AWGNChannel", "snr", cplx, 7, lambda: AWGNChannel(snr_db=7), "gaussian", None))
+        chans.append(("LaplacianChannel", "snr", cplx, 7, lambda: LaplacianChannel(snr_db=7), "laplacian", None))
         for sc in ((0.05, 2.0) if quick else (0.05, 0.5, 2.0, 30.0)):
             chans.append(("LaplacianChannel", "scale", cplx, sc, lambda sc=sc: LaplacianChannel(scale=sc), "laplacian", None))
         for snr in snrs:
@@ -100,6 +107,8 @@ def run(run):
         for (sp, shape, fam) in variants:
             x = signal(cplx, sp, shape, fam)
             cfg = {"channel": comp, "mode": mode, "complex": cplx, "value": val, "signal_power": sp, "ndim": len(shape)}
+            if isinstance(val, int):
+                cfg["value_type"] = "int"
             if fam != "gaussian":
                 cfg["signal"] = fam
             try:
